@@ -334,6 +334,9 @@ func runC03(p *Prog, r *Report, tier string) {
 	checkInfoElementImmutable(p, r, "R-OWNER.info-element")
 	checkSpecifierFreshness(p, r, "R-EXACT.field-specifier")
 	checkRecordLoopExits(p, r, "R-EXACT.record-loop")
+	checkBufferReads(p, r, "R-BOUNDS.read")
+	// "decoding terminates promptly" for a stream: the reader loop consumes something on every iteration and leaves on errors (C11's rules)
+	checkFraming(p, r)
 	// a field is "taken from its full encoded width" only if the reader interprets the variable-length prefix like the
 	// writer does (C15's prefix rule: threshold 255, 1 / 3 prefix bytes, in all five sites)
 	prefixSites(p, r, "R-EXACT.prefix")
